@@ -48,6 +48,8 @@ type atom struct {
 	Accepts bool   // effective acceptance per the statement (accepted, or rejected only for a tolerated reason from that client)
 	// FirstFast: the first request (chunk) is answered at once, the later ones after Delay
 	FirstFast bool
+	// VersionHangs: the node does not answer the version query (it accepts what it is sent)
+	VersionHangs bool
 }
 
 func generic() []atom {
@@ -59,6 +61,7 @@ func generic() []atom {
 		{Name: "reject-plain", Client: "nimbus", Err: "POST failed with status 400: connection reset"},
 		{Name: "reject-json", Client: "Lighthouse/v5", Err: `POST failed with status 400: {"code":400,"message":"BAD_REQUEST: invalid","failures":[{"index":0,"message":"Verification: InvalidSignature"}]}`},
 		{Name: "reject-slow-inside", Client: "teku", Delay: slowIn, Err: "POST failed with status 500: internal"},
+		{Name: "accept-but-version-query-hangs", Client: "teku", VersionHangs: true, Accepts: true},
 	}
 }
 
@@ -136,7 +139,14 @@ func (n *node) Address() string { return n.name }
 func (n *node) Name() string    { return n.name }
 func (n *node) IsActive() bool  { return true }
 func (n *node) IsSynced() bool  { return true }
-func (n *node) NodeVersion(context.Context, *api.NodeVersionOpts) (*api.Response[string], error) {
+func (n *node) NodeVersion(ctx context.Context, _ *api.NodeVersionOpts) (*api.Response[string], error) {
+	if n.a.VersionHangs {
+		select {
+		case <-time.After(hangFor):
+		case <-ctx.Done():
+		}
+		return nil, errors.New("version query timed out")
+	}
 	return &api.Response[string]{Data: n.a.Client, Metadata: map[string]any{}}, nil
 }
 
@@ -373,7 +383,12 @@ func runCase(c *harness.Ctx, id string, fc fcase, atoms []atom) {
 		}
 		// expected result
 		expectOK := false
+		ambiguous := false // a node that accepts but does not answer the version query counts or not, depending on whether the submitter asks before or after
 		for _, a := range atoms {
+			if a.VersionHangs {
+				ambiguous = true
+				continue
+			}
 			inTime := !a.Hang && a.Delay < timeout
 			if fc.CallerGone {
 				inTime = !a.Hang && a.Delay < callerGoneAfter-100*time.Millisecond
@@ -392,10 +407,12 @@ func runCase(c *harness.Ctx, id string, fc fcase, atoms []atom) {
 				c.Violate("immediate-rejected-but-success:"+fc.Kind, "the only node rejected but the submission succeeded", id, detail)
 			}
 		} else {
-			if expectOK && err != nil {
+			if ambiguous && !expectOK {
+				c.Count("success_not_judged_version_query_hangs", 1)
+			} else if expectOK && err != nil {
 				c.Violate("accepted-but-failure:"+fc.Kind, "a node accepted (or rejected only for a tolerated reason) in time but the submission failed: "+err.Error(), id, detail)
 			}
-			if !expectOK && err == nil {
+			if !expectOK && err == nil && !ambiguous {
 				cls := ""
 				for _, a := range atoms {
 					if strings.HasPrefix(a.Name, "malformed") {
